@@ -7,7 +7,7 @@ From Coq Require Import String List Arith Bool ZArith Reals Permutation Sorted.
 Import ListNotations.
 Require Import MV.Lib.Base MV.C03.Gen MV.C03.GenR MV.C03.Model MV.C03.Run MV.C03.Proofs_Simplex MV.C03.Proofs_Incidence
         MV.C03.Proofs_Incidence2 MV.C03.Proofs_Orient MV.C03.Proofs_OrientR MV.C03.Proofs_Maps MV.C03.Proofs_Ring
-        MV.C03.Proofs_Cache MV.C03.Proofs_Cover MV.C03.Proofs_Closed MV.C03.Proofs_EdgeMap MV.C03.Proofs_Surface MV.C03.Proofs_Main.
+        MV.C03.Proofs_Cache MV.C03.Proofs_FaceRing MV.C03.Proofs_Cover MV.C03.Proofs_Closed MV.C03.Proofs_EdgeMap MV.C03.Proofs_Surface MV.C03.Proofs_Main.
 Local Open Scope nat_scope.
 
 (* FULL. Completion: every triangle of every cell is a face exactly once, every side of every face an edge exactly
@@ -207,21 +207,21 @@ Theorem C03_query_order_no_attribute_error :
 Proof. exact no_attribute_error_any_order. Qed.
 Print Assumptions C03_query_order_no_attribute_error.
 
-(* PARTIAL: full for the cells, only `Permutation` for the faces. Rotational order around an edge (_sort_edge_neighborhoods after the repair
-   e464500), for EVERY start cell the set order may pick: the sort never raises and never runs out of fuel; it returns
-   the cells / faces of the edge (permutations of the unsorted tables); when it reports "sorted" the cell list is
-   duplicate-free, contains the start, and consecutive cells share a face containing the edge; and it does report
-   "sorted" on a conforming mesh whenever the cells around the edge are connected through faces containing the edge.
-   Missing (tested only): the sorted FACE list is in rotational order too (it is proved to be the faces of the edge
-   sorted by the walk keys). *)
-Theorem C03_edge_ring_partial : forall M, tet_mesh M -> forall e start,
+(* FULL. Rotational order around an edge (_sort_edge_neighborhoods after the repair e464500), for EVERY start cell the
+   set order may pick: the sort never raises and never runs out of fuel; it returns the cells / faces of the edge
+   (permutations of the unsorted tables); when it reports "sorted", the cell list is duplicate-free, contains the start
+   and consecutive cells share a face containing the edge, AND the face list is duplicate-free with consecutive faces
+   bounding a common cell; and it does report "sorted" on a conforming mesh whenever the cells around the edge are
+   connected through faces containing the edge.  (The mutual offset of the two lists is not part of the property.) *)
+Theorem C03_edge_ring : forall M, tet_mesh M -> forall e start,
   e < length (edges_of M) -> In start (nth e (t_e2c (tables M)) []) ->
   exists A B b cs fs,
     edge M e = [A; B] /\
     sorted_edge (m_cells M) (faces_of M) (edges_of M) (t_f2c (tables M))
                 (nth e (t_e2c (tables M)) []) (nth e (t_e2f (tables M)) []) e start = Ok (b, cs, fs)
     /\ Permutation cs (nth e (t_e2c (tables M)) []) /\ Permutation fs (nth e (t_e2f (tables M)) [])
-    /\ (b = true -> NoDup cs /\ Sorted (adjacent_around (m_cells M) (faces_of M) A B) cs /\ In start cs)
+    /\ (b = true -> NoDup cs /\ Sorted (adjacent_around (m_cells M) (faces_of M) A B) cs /\ In start cs
+                    /\ NoDup fs /\ Sorted (face_adj (m_cells M) (faces_of M)) fs)
     /\ (conforming (m_cells M) -> link_connected (m_cells M) (faces_of M) A B (nth e (t_e2c (tables M)) []) -> b = true).
 Proof. exact edge_ring. Qed.
-Print Assumptions C03_edge_ring_partial.
+Print Assumptions C03_edge_ring.
